@@ -220,6 +220,11 @@ mod k3 {
                 let (g1, g2) = (s1.build(), s2.build());
                 let r = DefaultQueryDispatcher.closest_points(&p12, &*g1, &*g2, m);
                 format!("{} {}", fcp(&r), tail_local(&p12, &*g1, &*g2)) }
+            // the SAT-based cuboid/cuboid kernels (public in `query::details`; no longer reached by the default dispatcher)
+            "cpcc3" => { let m = a.f(); let h1 = d3::v(a); let h2 = d3::v(a); let p12 = d3::iso(a);
+                quiet(|| fcp0(&query::details::closest_points_cuboid_cuboid(&p12, &Cuboid::new(h1), &Cuboid::new(h2), m))).unwrap_or("panic".into()) }
+            "dcc3" => { let h1 = d3::v(a); let h2 = d3::v(a); let p12 = d3::iso(a);
+                quiet(|| ff(query::details::distance_cuboid_cuboid(&p12, &Cuboid::new(h1), &Cuboid::new(h2)))).unwrap_or("panic".into()) }
             // bare results of the public entry points for the bit-exact model of routing + wrappers + frame changes
             "cpw3" => { let m = a.f(); let s1 = Sh::parse(a); let p1 = d3::iso(a); let s2 = Sh::parse(a); let p2 = d3::iso(a);
                 let (g1, g2) = (s1.build(), s2.build());
@@ -365,7 +370,51 @@ mod k3 {
         v.push(("cpl3".into(), format!("{} {} {} {}", hx(m), s1.tokens(), s2.tokens(), d3::hiso(&p12))));
     }
 
+    /// DISJOINT cuboid pairs for `closest_points_cuboid_cuboid` / `distance_cuboid_cuboid`. Two thirds are built so that the
+    /// closest features are the interiors of two crossed edges (every one of the 9 direction pairs, generic and lattice
+    /// rotations, gap 1e-2 … 10, margin below / above the gap / MAX); the rest are generically placed (face–vertex,
+    /// vertex–edge, vertex–vertex) or axis-stacked lattice poses (face–face, face–edge). The oracle classifies each pose exactly.
+    fn gen_cuboid_pairs(r: &mut Rng, thorough: bool, v: &mut Vec<(String, String)>) {
+        let n = if thorough { 1800 } else { 180 };
+        for it in 0..n {
+            let lat = it % 4 == 3;
+            let mode = (it / 4) % 4; // 0, 1: crossed edges; 2: vertex over a face; 3: generic / axis-stacked
+            let mut h1 = d3::gen_he(r, lat); let mut h2 = d3::gen_he(r, lat);
+            let mut p12 = d3::gen_iso(r, lat, 0.0);
+            let gap = if lat { *r.pick(&[0.015625, 0.25, 1.0, 4.0, 8.0]) } else { r.logu(1e-2, 10.0) };
+            let mut m = match r.below(4) { 0 => gap * 0.5, 1 => gap * 2.0, 2 => f64::MAX, _ => gap * r.uniform(0.0, 3.0) };
+            let (i, j) = (((it / 16) % 3) as usize, ((it / 48) % 3) as usize);
+            let rot = p12.rotation;
+            let (e1, e2) = (Vector::ith(i, 1.0), rot * Vector::ith(j, 1.0));
+            let nrm = if mode == 2 { e1 } else { e1.cross(&e2) };
+            if mode != 3 && nrm.norm() > 0.05 {
+                // box 1 touches the plane through q1 with unit normal nn from below, box 2 touches the parallel plane `gap` above:
+                // crossed edges: edge 1 = support edge of box 1 towards nn (direction i), edge 2 = support edge of box 2 towards -nn
+                // (direction j); vertex over face: q1 inside the face of box 1 with normal ±e_i, q2 = support vertex of box 2 towards -nn
+                let nn = nrm.normalize() * if r.bool() { 1.0 } else { -1.0 };
+                let n2 = rot.inverse() * -nn;
+                let (mut q1, mut q2) = (Vector::zeros(), Vector::zeros());
+                for k in 0..3 {
+                    q1[k] = if mode == 2 { if k == i { h1[k].copysign(nn[k]) } else { h1[k] * r.uniform(-0.7, 0.7) } }
+                            else if k == i { h1[k] * r.uniform(-0.7, 0.7) } else { h1[k].copysign(nn[k]) };
+                    q2[k] = if mode != 2 && k == j { h2[k] * r.uniform(-0.7, 0.7) } else { h2[k].copysign(n2[k]) };
+                }
+                p12.translation.vector = q1 + nn * gap - rot * q2;
+                if mode == 2 && r.bool() { std::mem::swap(&mut h1, &mut h2); p12 = p12.inverse(); }
+            } else {
+                let u = if lat && r.bool() { Vector::ith(r.below(3) as usize, if r.bool() { 1.0 } else { -1.0 }) } else { gen_unit(r, lat) };
+                let reach = h1.norm() + h2.norm();
+                p12.translation.vector = u * if lat { *r.pick(&[4.0, 6.0, 8.0]) } else { reach * r.uniform(0.6, 1.6) };
+                if r.below(3) != 0 { m = match r.below(3) { 0 => f64::MAX, _ => reach * r.uniform(0.0, 2.0) }; }
+            }
+            let w = format!("{} {} {}", d3::hv(&h1), d3::hv(&h2), d3::hiso(&p12));
+            v.push(("cpcc3".into(), format!("{} {}", hx(m), w)));
+            if it % 4 != 1 { v.push(("dcc3".into(), w)); }
+        }
+    }
+
     pub fn gen(r: &mut Rng, thorough: bool, v: &mut Vec<(String, String)>) {
+        gen_cuboid_pairs(&mut Rng(r.0 ^ 0x5A5A_C0B0_1D5E_ED01), thorough, v); // own stream: the existing families keep their cases
         let n = if thorough { 4000 } else { 400 };
         for it in 0..n {
             let lat = it % 2 == 0;
